@@ -384,10 +384,21 @@ def data_cases(tier, seed):
                        "level": 0.3 if ts is None else None, "fit_rows": k}
 
 
-FAMILIES = {"onehot": lambda t, s: onehot_cases(t), "rowmax": lambda t, s: rowmax_cases(t),
+def long_cases(tier):
+    for n in (12, 16) if tier == "quick" else (12, 16, 20, 24):
+        for msl, M, g in ((1, 8, 1.5), (4, n, 1.5), (5, 12, 2.0), (2, 10, 1.25)):
+            if n < 2 * msl or M < 2 * msl:
+                continue
+            for cps, xs in util.structured_series(n, 2, (0.0, 3.0)):
+                if len(cps) == 2 and (cps[0] * 3 + cps[1]) % 3 and n > 12:
+                    continue
+                yield {"fam": "data", "x": list(xs), "score": "L2cost" if msl != 2 else "L2", "msl": msl, "M": M, "growth": g, "thr_scale": 0.3}
+
+
+FAMILIES = {"long": lambda t, s: long_cases(t), "onehot": lambda t, s: onehot_cases(t), "rowmax": lambda t, s: rowmax_cases(t),
             "greedy": lambda t, s: greedy_cases(t), "greedy-dev": lambda t, s: greedy_dev_cases(t),
             "data": lambda t, s: data_cases(t, s)}
-NSH = {"onehot": 24, "rowmax": 32, "greedy": 48, "greedy-dev": 48, "data": 64}
+NSH = {"long": 32, "onehot": 24, "rowmax": 32, "greedy": 48, "greedy-dev": 48, "data": 64}
 
 
 def shards(tier, seed):
@@ -400,6 +411,7 @@ def bounds(tier, seed):
         "rowmax configs": "n<=7 / 8; all {0,1,2} tables for candidates with <=6/7 inner intervals, <=2 deviations otherwise",
         "greedy": "configs n<=8 / 10 with <=6/7 usable candidates; levels (0,1,2,3) x threshold; inner intervals {first,last,middle,shortest,longest}",
         "greedy-dev": "n in (8,9,10,12) / (8..14), M in {n, n//2}, msl<=3; all single deviations and all pairs on overlapping candidates",
+        "long": "piecewise-constant textured series n in (12,16) quick / up to 24, <= 2 changes, msl in (1,2,4,5)",
         "data": "all series over (0,4) n<=9/10; (0,1,3) and seed-affine image n<=7/8; 2-column (0,3) n<=5; L2Cost msl 1, LocalAnomalyScore(L2Cost) msl 2, LocalAnomalyScore(GaussianVarCost) msl 2; thresholds 0, 0.05*default, tuned",
     }
 
